@@ -314,6 +314,11 @@ fn main() {
                 .to_string();
             let w = world(plan.world);
             let mut stats = Stats::default();
+            if matches!(plan.world, "threads" | "nfsthreads" | "chunkthreads") {
+                // Replays of thread worlds print the schedule and the reads-from
+                // choices that the plan's seed produces (the fault and schedule trace).
+                std::env::set_var("VERIF_TRACE", "1");
+            }
             if let (Some(r), true) = (j.get("replay_range"), args[1] == "replay") {
                 let ask = Ask {
                     prop: prop_static(r.get("prop").and_then(|x| x.as_str()).unwrap_or("C05")),
